@@ -71,12 +71,12 @@ impl Code {
 				if let Some(local_variables) = self.local_variables {
 					// as when reading: an entry is only delivered to a visitor that is interested in the table it comes from
 					// (descriptor: LocalVariableTable, signature: LocalVariableTypeTable)
-					let was_empty = local_variables.is_empty();
 					let local_variables: Vec<_> = local_variables.into_iter()
 						.filter(|lv| (lv.descriptor.is_some() && interests.local_variable_table)
 							|| (lv.signature.is_some() && interests.local_variable_type_table))
 						.collect();
-					if was_empty || !local_variables.is_empty() {
+					// as when reading: a list without entries is only reported to a visitor that is interested in both tables
+					if !local_variables.is_empty() || (interests.local_variable_table && interests.local_variable_type_table) {
 						code_visitor.visit_local_variables(local_variables)?;
 					}
 				}
